@@ -76,6 +76,13 @@ class Sim:
         nc = kind.endswith("_nc")          # mutation NOT followed by compute_bounds(): bounds are stale until 'recompute'
         if nc:
             kind = kind[:-3]
+        if kind == "fork":
+            # go on with a COPY of every object (a copy must be a full working game: same computer, same table)
+            self.objs = {name: g.copy() for name, g in self.objs.items()}
+            for g in self.objs.values():
+                g.compute_bounds()
+            self.dirty = False
+            return
         for g in self.objs.values():
             if kind == "reveal":
                 g.reveal_value(self.v[op[1]], repo.coal(op[1]))
@@ -179,7 +186,7 @@ def _check_all_k(case: dict, res: Result) -> Result:
 # ----------------------------------------------------------------------------------------------------
 
 
-def make_machine(max_n: int, explicit_up_to: int = 5):
+def make_machine(max_n: int, explicit_up_to: int = 5, min_n: int = 2):
     class Machine(RuleBasedStateMachine):
         ctx: Ctx = None  # type: ignore[assignment]
 
@@ -188,12 +195,12 @@ def make_machine(max_n: int, explicit_up_to: int = 5):
             self.sim = None
             self.case = None
 
-        @initialize(game=superadditive_games(2, max_n, explicit_up_to=explicit_up_to), data=st.data())
+        @initialize(game=superadditive_games(min_n, max_n, explicit_up_to=explicit_up_to), data=st.data())
         def init(self, game, data):
             n = game["n"]
             comps = list(COMPUTERS)
             if n >= 8:
-                comps = ["superadditive_cached"]
+                comps = ["superadditive_cached"]      # the uncached computer needs seconds per call from n = 8 on
             k0 = data.draw(knowledge_sets(n)) if n <= 6 else seeded_knowledge(n, data.draw(st.integers(0, 2**31)))
             self.case = {"game": game, "k0": k0, "ops": [], "computers": comps}
             self.sim = Sim(game, k0, comps)
@@ -234,6 +241,11 @@ def make_machine(max_n: int, explicit_up_to: int = 5):
             self._do(["recompute"])
 
         @precondition(lambda self: self.sim is not None)
+        @rule()
+        def fork(self):
+            self._do(["fork"])
+
+        @precondition(lambda self: self.sim is not None)
         @rule(i=st.integers(0, 2**20))
         def reset_value(self, i):
             k = sorted(self.sim.K)
@@ -269,16 +281,18 @@ def plan(tier: str) -> list[dict]:
     if tier == "quick":
         return ([{"mode": "machine", "max_n": 5, "examples": 300, "steps": 25, "cost": 3} for _ in range(4)]
                 + [{"mode": "machine", "max_n": 7, "explicit": 5, "examples": 25, "steps": 15, "cost": 3}]
+                + [{"mode": "machine", "max_n": 9, "min_n": 9, "explicit": 5, "examples": 6, "steps": 8, "cost": 3}]
                 + [{"mode": "allK", "n": 3, "games": 60, "cost": 1}, {"mode": "allK", "n": 4, "games": 6, "cost": 2}])
     return ([{"mode": "machine", "max_n": 6, "examples": 900, "steps": 40, "cost": 8} for _ in range(8)]
-            + [{"mode": "machine", "max_n": 8, "explicit": 4, "examples": 150, "steps": 25, "cost": 10} for _ in range(4)]
+            + [{"mode": "machine", "max_n": 8, "explicit": 4, "examples": 150, "steps": 25, "cost": 10} for _ in range(3)]
+            + [{"mode": "machine", "max_n": 10, "min_n": 9, "explicit": 4, "examples": 40, "steps": 15, "cost": 10}]
             + [{"mode": "allK", "n": 3, "games": 400, "cost": 1}]
             + [{"mode": "allK", "n": 4, "games": 80, "cost": 6} for _ in range(4)])
 
 
 def run_shard(spec: dict, ctx: Ctx) -> None:
     if spec["mode"] == "machine":
-        ctx.run_machine(make_machine(spec["max_n"], spec.get("explicit", 5)), spec["examples"], spec["steps"])
+        ctx.run_machine(make_machine(spec["max_n"], spec.get("explicit", 5), spec.get("min_n", 2)), spec["examples"], spec["steps"])
         return
     n = spec["n"]
     strat = superadditive_games(n, n).map(lambda g: {"kind": "allK", "game": g})
